@@ -87,6 +87,13 @@ theorem seed_is_usable_cross_section :
     two_usable_cs.checks = [] ∧ three_usable_cs.checks = [] := by
   exact ⟨rfl, rfl, rfl, rfl, rfl⟩
 
+/-- WHEN the seed is assigned - the two forms of `BaseRollPass.init_solve` the model knows: on every solve
+    (`super(); seed`), or only when the out profile is created by this call (`created = not self.out_profile; super();
+    if created: seed`); the statement list of `Gen/C08Cache.lean` and the flag of `Gen/C08Geom.lean` say the same -/
+theorem seed_form :
+    init_solve_ops = (if init_solve_seed_on_creation = true then [.created, .super, .seedIfCreated] else [.super, .seed]) := by
+  decide
+
 /-- with no width model the out cross-section IS the seed: at `width = usable_width` both are the same geometry, for
     every interpretation (so the seed is a fixed point of the iteration) -/
 theorem default_out_cs_is_seed {α G : Type} [PyNum α] (S : Sig α G) (ρ : String → α) (h : ρ "width" = ρ "usable_width") :
@@ -746,7 +753,8 @@ def provNow (p : Pass) {γ κ : Type} (g : γ) (k : κ) : Prov γ κ :=
 def Rebuilds (p : Pass) (loop : List LStep) : Prop :=
   ∀ {γ κ : Type} (g : γ) (k : κ) (s : St γ κ),
     (iter p g k loop s).used = provNow p g k :: s.used ∧ (iter p g k loop s).lines = some (provNow p g k) ∧
-    (iter p g k loop s).gapC = some g ∧ (iter p g k loop s).rline = some k ∧ (iter p g k loop s).cpC = some k
+    (iter p g k loop s).gapC = some g ∧ (iter p g k loop s).rline = some k ∧ (iter p g k loop s).cpC = some k ∧
+    (iter p g k loop s).ocs = some (.built (provNow p g k)) ∧ (iter p g k loop s).outp = s.outp
 
 /-- **every iteration rebuilds the contour lines, from the rolls as they are now** — the generated loop body of
     `Unit.solve`, the generated `reevaluate_cache` chains of the pass classes AND of the roll classes, the generated memos of
@@ -754,7 +762,7 @@ def Rebuilds (p : Pass) (loop : List LStep) : Prop :=
     every value of the gap and every groove -/
 theorem iteration_rebuilds_contour_lines :
     Rebuilds two_pass solve_loop ∧ Rebuilds three_pass solve_loop := by
-  constructor <;> intro γ κ g k s <;> obtain ⟨l, c, u, us, cp, rl⟩ := s <;> cases l <;> cases c <;> cases u <;> cases cp <;>
+  constructor <;> intro γ κ g k s <;> obtain ⟨l, c, u, us, cp, rl, op, cr, oc⟩ := s <;> cases l <;> cases c <;> cases u <;> cases cp <;>
     cases rl <;>
     simp [iter, step, runChain, runOps, runRollChain, runRollOps, recompute, recomputeRoll, readLines, readRollLine, readCP,
       readGap, provNow, two_pass, three_pass, two_reevaluate, three_reevaluate, two_roll_reevaluate, three_roll_reevaluate,
@@ -771,9 +779,10 @@ theorem iterate_last {γ κ : Type} {p : Pass} {loop : List LStep} (h : Rebuilds
     (k : κ) (g : γ) (gs : List γ) (s : St γ κ) :
     (iterate p loop k (g :: gs) s).lines = some (provNow p ((g :: gs).getLast (by simp)) k) ∧
     (iterate p loop k (g :: gs) s).gapC = some ((g :: gs).getLast (by simp)) ∧
-    (iterate p loop k (g :: gs) s).rline = some k := by
+    (iterate p loop k (g :: gs) s).rline = some k ∧
+    (iterate p loop k (g :: gs) s).ocs = some (.built (provNow p ((g :: gs).getLast (by simp)) k)) := by
   induction gs generalizing g s with
-  | nil => simp [iterate, (h g k s).2.1, (h g k s).2.2.1, (h g k s).2.2.2.1]
+  | nil => simp [iterate, (h g k s).2.1, (h g k s).2.2.1, (h g k s).2.2.2.1, (h g k s).2.2.2.2.2.1]
   | cons g' gs ih =>
     have := ih g' (iter p g k loop s)
     simpa [iterate, List.getLast_cons] using this
@@ -783,7 +792,8 @@ def SolvedAt (p : Pass) {γ κ : Type} (k : κ) (g : γ) (gs : List γ) (s : St 
   s.used.take (gs.length + 1) = ((g :: gs).map (provNow p · k)).reverse ∧
   s.used.head? = some (provNow p ((g :: gs).getLast (by simp)) k) ∧
   s.lines = some (provNow p ((g :: gs).getLast (by simp)) k) ∧
-  s.gapC = some ((g :: gs).getLast (by simp)) ∧ s.rline = some k
+  s.gapC = some ((g :: gs).getLast (by simp)) ∧ s.rline = some k ∧
+  s.ocs = some (.built (provNow p ((g :: gs).getLast (by simp)) k))
 
 theorem solve_of_rebuilds {γ κ : Type} {p : Pass} {loop : List LStep} (h : Rebuilds p loop) (init : List IOp)
     (k : κ) (g0 g : γ) (gs : List γ) (s0 : St γ κ) : SolvedAt p k g gs (solve p loop init k g0 (g :: gs) s0) := by
@@ -799,7 +809,7 @@ theorem solve_of_rebuilds {γ κ : Type} {p : Pass} {loop : List LStep} (h : Reb
     intro t
     rw [List.take_append_of_le_length (by simp), List.take_of_length_le (by simp)]
   unfold SolvedAt solve
-  refine ⟨?_, ?_, l.1, l.2.1, l.2.2⟩
+  refine ⟨?_, ?_, l.1, l.2.1, l.2.2.1, l.2.2.2⟩
   · rw [u, tk]
   · rw [u, hd]
 
@@ -859,7 +869,7 @@ def UcsCurrent (p : Pass) (loop : List LStep) : Prop :=
     computes the remembered hook values again, so the usable cross-section is rebuilt from lines at the gap and groove of
     this iteration — for every state of pass and roll. -/
 theorem cached_usable_cs_is_current : UcsCurrent two_pass solve_loop ∧ UcsCurrent three_pass solve_loop := by
-  constructor <;> intro γ κ g k s hu <;> obtain ⟨l, c, u, us, cp, rl⟩ := s <;> cases u <;> simp at hu <;>
+  constructor <;> intro γ κ g k s hu <;> obtain ⟨l, c, u, us, cp, rl, op, cr, oc⟩ := s <;> cases u <;> simp at hu <;>
     cases l <;> cases c <;> cases cp <;> cases rl <;>
     simp [iter, step, runChain, runOps, runRollChain, runRollOps, recompute, recomputeRoll, readLines, readRollLine, readCP,
       readGap, provNow, two_pass, three_pass, two_reevaluate, three_reevaluate, two_roll_reevaluate, three_roll_reevaluate,
@@ -874,17 +884,172 @@ theorem iterate_ucs {γ κ : Type} {p : Pass} {loop : List LStep} (h : UcsCurren
     have := ih g' (iter p g k loop s) (by rw [h g k s hs]; rfl)
     simpa [iterate, List.getLast_cons] using this
 
-/-- after `Unit.solve` on a pass in ANY state the remembered usable cross-section is the one of the mounted groove at the
-    last gap (the same lines as the final out cross-section, `solve_builds_out_cs_at_reported_gap`) -/
+/-! ### `init_solve`: the start value of the out cross-section, and why it does not matter -/
+
+/-- reading the contour lines does not touch the out profile -/
+theorem readLines_outp {γ κ : Type} (p : Pass) (g : γ) (k : κ) (s : St γ κ) : (readLines p g k s).2.outp = s.outp := by
+  obtain ⟨l, c, u, us, cp, rl, op, cr, oc⟩ := s
+  obtain ⟨⟨mg, ms, md⟩, ⟨rg, rs, rd⟩, ch, rch⟩ := p
+  cases mg <;> cases ms <;> cases rg <;> cases rs <;> cases l <;> cases c <;> cases cp <;> cases rl <;>
+    simp [readLines, readRollLine, readCP, readGap]
+
+/-- **first solve**: `init_solve` on a pass WITHOUT an out profile (any pass kind, any state of memos and caches) creates
+    the out profile and seeds its cross-section with the usable cross-section (which is remembered from then on) - in
+    both forms of `init_solve` (`seed_form`) -/
+theorem init_solve_seeds_new_out_profile {γ κ : Type} (p : Pass) (g : γ) (k : κ) (s0 : St γ κ) (h : s0.outp = false) :
+    (initSolve p g k init_solve_ops s0).outp = true ∧
+    ∃ l, (initSolve p g k init_solve_ops s0).ucs = some l ∧ (initSolve p g k init_solve_ops s0).ocs = some (.seeded l) := by
+  obtain ⟨l, c, u, us, cp, rl, op, cr, oc⟩ := s0
+  simp only at h
+  subst h
+  cases u <;> simp [initSolve, init_solve_ops, superInit, seedOut, readUcs, readLines_outp]
+
+/-- **a further solve of the same pass object**: with the seed assigned on creation only, `init_solve` leaves the out
+    profile's cross-section (the result of the previous solution), the remembered usable cross-section and the evaluations
+    so far as they are - the pass starts from the previous cross-section like from every other remembered result; with the
+    seed assigned on every solve it starts from the usable cross-section again.  Whichever form the source has. -/
+theorem init_solve_reused_out_profile {γ κ : Type} (p : Pass) (g : γ) (k : κ) (s0 : St γ κ) (h : s0.outp = true) :
+    (init_solve_seed_on_creation = true →
+      (initSolve p g k init_solve_ops s0).ocs = s0.ocs ∧ (initSolve p g k init_solve_ops s0).ucs = s0.ucs ∧
+      (initSolve p g k init_solve_ops s0).lines = s0.lines ∧ (initSolve p g k init_solve_ops s0).used = s0.used) ∧
+    (init_solve_seed_on_creation = false →
+      ∃ l, (initSolve p g k init_solve_ops s0).ucs = some l ∧ (initSolve p g k init_solve_ops s0).ocs = some (.seeded l)) := by
+  obtain ⟨l, c, u, us, cp, rl, op, cr, oc⟩ := s0
+  simp only at h
+  subst h
+  cases u <;> simp [initSolve, init_solve_ops, init_solve_seed_on_creation, superInit, seedOut, readUcs]
+
+/-- **the start value does not matter** (what the property needs): after `Unit.solve` - the generated `init_solve`, the
+    generated loop - on a pass in ANY state `s0` (no out profile; an out profile holding the incoming profile's
+    cross-section, the first guess, or the result of an earlier solution with another groove, gap or width) the out
+    profile's cross-section is the one the hook implementation `OutProfile.cross_section` built in the LAST iteration: the
+    helper at the prescribed width (parts A-D) on contour lines of the mounted groove `k` at the last gap.  Two passes in
+    different states therefore end with the same out cross-section. -/
+theorem out_cs_after_solve_ignores_start_value {γ κ : Type} (k : κ) (g0 g : γ) (gs : List γ) (s0 s1 : St γ κ) :
+    (solve two_pass solve_loop init_solve_ops k g0 (g :: gs) s0).ocs =
+      some (.built (provNow two_pass ((g :: gs).getLast (by simp)) k)) ∧
+    (solve three_pass solve_loop init_solve_ops k g0 (g :: gs) s0).ocs =
+      some (.built (provNow three_pass ((g :: gs).getLast (by simp)) k)) ∧
+    (solve two_pass solve_loop init_solve_ops k g0 (g :: gs) s0).ocs = (solve two_pass solve_loop init_solve_ops k g0 (g :: gs) s1).ocs ∧
+    (solve three_pass solve_loop init_solve_ops k g0 (g :: gs) s0).ocs = (solve three_pass solve_loop init_solve_ops k g0 (g :: gs) s1).ocs := by
+  have a := fun s => (solve_of_rebuilds iteration_rebuilds_contour_lines.1 init_solve_ops k g0 g gs s).2.2.2.2.2
+  have b := fun s => (solve_of_rebuilds iteration_rebuilds_contour_lines.2 init_solve_ops k g0 g gs s).2.2.2.2.2
+  exact ⟨a s0, b s0, by rw [a s0, a s1], by rw [b s0, b s1]⟩
+
+/-- a usable cross-section that is not remembered is not built by an iteration either -/
+def UcsStaysOut (p : Pass) (loop : List LStep) : Prop :=
+  ∀ {γ κ : Type} (g : γ) (k : κ) (s : St γ κ), s.ucs = none → (iter p g k loop s).ucs = none
+
+theorem iteration_keeps_usable_cs_out : UcsStaysOut two_pass solve_loop ∧ UcsStaysOut three_pass solve_loop := by
+  constructor <;> intro γ κ g k s hu <;> obtain ⟨l, c, u, us, cp, rl, op, cr, oc⟩ := s <;> simp only at hu <;> subst hu <;>
+    cases l <;> cases c <;> cases cp <;> cases rl <;>
+    simp [iter, step, runChain, runOps, runRollChain, runRollOps, recompute, recomputeRoll, readLines, readRollLine, readCP,
+      readGap, two_pass, three_pass, two_reevaluate, three_reevaluate, two_roll_reevaluate, three_roll_reevaluate,
+      two_memo, three_memo, two_roll_memo, three_roll_memo, solve_loop]
+
+theorem iterate_ucs_none {γ κ : Type} {p : Pass} {loop : List LStep} (h : UcsStaysOut p loop)
+    (k : κ) (gs : List γ) (s : St γ κ) (hs : s.ucs = none) : (iterate p loop k gs s).ucs = none := by
+  induction gs generalizing s with
+  | nil => simpa [iterate] using hs
+  | cons g gs ih => simpa [iterate] using ih (iter p g k loop s) (h g k s hs)
+
+theorem iterate_outp {γ κ : Type} {p : Pass} {loop : List LStep} (h : Rebuilds p loop)
+    (k : κ) (gs : List γ) (s : St γ κ) : (iterate p loop k gs s).outp = s.outp := by
+  induction gs generalizing s with
+  | nil => simp [iterate]
+  | cons g gs ih => simp [iterate, ih, (h g k s).2.2.2.2.2.2]
+
+/-- `init_solve` leaves a usable cross-section behind whenever the pass had no out profile or remembered one already -/
+theorem init_solve_ucs {γ κ : Type} (p : Pass) (g : γ) (k : κ) (s0 : St γ κ) (h : s0.outp = false ∨ s0.ucs.isSome) :
+    (initSolve p g k init_solve_ops s0).ucs.isSome ∧ (initSolve p g k init_solve_ops s0).outp = true := by
+  obtain ⟨l, c, u, us, cp, rl, op, cr, oc⟩ := s0
+  cases op <;> cases u <;> simp at h <;> cases cr <;>
+    simp [initSolve, init_solve_ops, superInit, seedOut, readUcs, readLines_outp]
+
+/-- after `Unit.solve` the remembered usable cross-section is the one of the mounted groove at the last gap (the same
+    lines as the final out cross-section, `solve_builds_out_cs_at_reported_gap`): for every pass that had no out profile
+    or remembered a usable cross-section - for EVERY state when `init_solve` seeds on every solve; and in every state:
+    whenever a usable cross-section is remembered after the solve, it is that one -/
 theorem solve_usable_cs_current {γ κ : Type} (k : κ) (g0 g : γ) (gs : List γ) (s0 : St γ κ) :
-    (solve two_pass solve_loop init_solve_ops k g0 (g :: gs) s0).ucs = some (provNow two_pass ((g :: gs).getLast (by simp)) k) ∧
-    (solve three_pass solve_loop init_solve_ops k g0 (g :: gs) s0).ucs = some (provNow three_pass ((g :: gs).getLast (by simp)) k) := by
-  have seeded : ∀ (p : Pass), (initSolve p g0 k init_solve_ops s0).ucs.isSome := by
-    intro p
-    obtain ⟨l, c, u, us, cp, rl⟩ := s0
-    cases u <;> simp [initSolve, init_solve_ops, readUcs]
-  exact ⟨iterate_ucs cached_usable_cs_is_current.1 k g gs _ (seeded _),
-    iterate_ucs cached_usable_cs_is_current.2 k g gs _ (seeded _)⟩
+    ((s0.outp = false ∨ s0.ucs.isSome ∨ init_solve_seed_on_creation = false) →
+      (solve two_pass solve_loop init_solve_ops k g0 (g :: gs) s0).ucs = some (provNow two_pass ((g :: gs).getLast (by simp)) k) ∧
+      (solve three_pass solve_loop init_solve_ops k g0 (g :: gs) s0).ucs = some (provNow three_pass ((g :: gs).getLast (by simp)) k)) ∧
+    ((solve two_pass solve_loop init_solve_ops k g0 (g :: gs) s0).ucs.isSome →
+      (solve two_pass solve_loop init_solve_ops k g0 (g :: gs) s0).ucs = some (provNow two_pass ((g :: gs).getLast (by simp)) k)) ∧
+    ((solve three_pass solve_loop init_solve_ops k g0 (g :: gs) s0).ucs.isSome →
+      (solve three_pass solve_loop init_solve_ops k g0 (g :: gs) s0).ucs = some (provNow three_pass ((g :: gs).getLast (by simp)) k)) := by
+  have seeded : ∀ (p : Pass), (s0.outp = false ∨ s0.ucs.isSome ∨ init_solve_seed_on_creation = false) →
+      (initSolve p g0 k init_solve_ops s0).ucs.isSome := by
+    intro p h
+    obtain ⟨l, c, u, us, cp, rl, op, cr, oc⟩ := s0
+    cases op <;> cases u <;> cases cr <;>
+      simp [init_solve_seed_on_creation] at h <;>
+      simp [initSolve, init_solve_ops, superInit, seedOut, readUcs]
+  have dich : ∀ (p : Pass), UcsCurrent p solve_loop → UcsStaysOut p solve_loop →
+      (solve p solve_loop init_solve_ops k g0 (g :: gs) s0).ucs.isSome →
+      (solve p solve_loop init_solve_ops k g0 (g :: gs) s0).ucs = some (provNow p ((g :: gs).getLast (by simp)) k) := by
+    intro p hc hn hs
+    cases hi : (initSolve p g0 k init_solve_ops s0).ucs with
+    | none =>
+      have := iterate_ucs_none hn k (g :: gs) _ hi
+      simp [solve, this] at hs
+    | some v => exact iterate_ucs hc k g gs _ (by simp [hi])
+  exact ⟨fun h => ⟨iterate_ucs cached_usable_cs_is_current.1 k g gs _ (seeded _ h),
+      iterate_ucs cached_usable_cs_is_current.2 k g gs _ (seeded _ h)⟩,
+    dich _ cached_usable_cs_is_current.1 iteration_keeps_usable_cs_out.1,
+    dich _ cached_usable_cs_is_current.2 iteration_keeps_usable_cs_out.2⟩
+
+/-- along every history of ONE pass object that starts without an out profile (a new pass: `{}`), a pass that has an out
+    profile remembers a usable cross-section -/
+def HasUcs {γ κ : Type} (s : St γ κ) : Prop := s.outp = false ∨ s.ucs.isSome
+
+theorem history_has_ucs {γ κ : Type} (acts : List (Act γ κ)) (s : St γ κ) (hs : HasUcs s) :
+    HasUcs (history two_pass solve_loop init_solve_ops acts s) ∧ HasUcs (history three_pass solve_loop init_solve_ops acts s) := by
+  have one : ∀ (p : Pass), UcsCurrent p solve_loop → Rebuilds p solve_loop → ∀ (acts : List (Act γ κ)) (s : St γ κ), HasUcs s →
+      HasUcs (history p solve_loop init_solve_ops acts s) := by
+    intro p hc hr acts
+    induction acts with
+    | nil => intro s hs; simpa [history] using hs
+    | cons a rest ih =>
+      intro s hs
+      apply ih
+      cases a with
+      | newRoll =>
+        rcases hs with h | h
+        · exact Or.inl (by simpa [act] using h)
+        · exact Or.inr (by simpa [act] using h)
+      | solve k g0 gs =>
+        right
+        have i := init_solve_ucs p g0 k s hs
+        cases gs with
+        | nil => simpa [act, solve, iterate] using i.1
+        | cons g gs => simp [act, solve, iterate_ucs hc k g gs _ i.1]
+  exact ⟨one _ cached_usable_cs_is_current.1 iteration_rebuilds_contour_lines.1 acts s hs,
+    one _ cached_usable_cs_is_current.2 iteration_rebuilds_contour_lines.2 acts s hs⟩
+
+/-- **whatever was done with one pass object since it was created** (`acts`), after a further solve the remembered usable
+    cross-section is the one of the mounted groove at the last gap - in both forms of `init_solve` -/
+theorem history_usable_cs_current {γ κ : Type} (acts : List (Act γ κ)) (k : κ) (g0 g : γ) (gs : List γ) :
+    (history two_pass solve_loop init_solve_ops (acts ++ [.solve k g0 (g :: gs)]) ({} : St γ κ)).ucs =
+      some (provNow two_pass ((g :: gs).getLast (by simp)) k) ∧
+    (history three_pass solve_loop init_solve_ops (acts ++ [.solve k g0 (g :: gs)]) ({} : St γ κ)).ucs =
+      some (provNow three_pass ((g :: gs).getLast (by simp)) k) := by
+  have hh : ∀ (p : Pass) (acts : List (Act γ κ)) (a : Act γ κ) (s : St γ κ),
+      history p solve_loop init_solve_ops (acts ++ [a]) s =
+        act p solve_loop init_solve_ops a (history p solve_loop init_solve_ops acts s) := by
+    intro p acts a
+    induction acts with
+    | nil => intro s; simp [history]
+    | cons b rest ih => intro s; simp [history, ih]
+  have inv := history_has_ucs acts ({} : St γ κ) (Or.inl rfl)
+  rw [hh, hh]
+  constructor
+  · rcases inv.1 with h | h
+    · exact ((solve_usable_cs_current k g0 g gs _).1 (Or.inl h)).1
+    · exact ((solve_usable_cs_current k g0 g gs _).1 (Or.inr (Or.inl h))).1
+  · rcases inv.2 with h | h
+    · exact ((solve_usable_cs_current k g0 g gs _).1 (Or.inl h)).2
+    · exact ((solve_usable_cs_current k g0 g gs _).1 (Or.inr (Or.inl h))).2
 
 /-- the order of the statements of `reevaluate_cache` BEFORE repair 20fe8da, written out by hand (a witness, not generated):
     `SymmetricRollPass` and `BaseRollPass` both `super(); roll; reset`, `Roll` `super(); reset` -/
@@ -899,7 +1064,7 @@ def oldOrder (direct : Bool) : Pass :=
 theorem old_order_usable_cs_one_iteration_behind {γ κ : Type} (d : Bool) (g : γ) (k : κ) (l : Prov γ κ) (s : St γ κ)
     (hl : s.lines = some l) (hu : s.ucs.isSome) :
     (iter (oldOrder d) g k [.inReeval, .subunits, .selfReeval, .outReeval, .rootHooks] s).ucs = some l := by
-  obtain ⟨l', c, u, us, cp, rl⟩ := s
+  obtain ⟨l', c, u, us, cp, rl, op, cr, oc⟩ := s
   cases u with
   | none => simp at hu
   | some u =>
@@ -919,6 +1084,17 @@ example : ¬ UcsCurrent (oldOrder false) [.inReeval, .subunits, .selfReeval, .ou
 /-- non-vacuity: a fresh two-roll pass, groove 1, the gap hook answering 5 during `init_solve` and the first iteration, then 7, 6, 6 -/
 example : ((solve two_pass solve_loop init_solve_ops 1 5 [5, 7, 6, 6] ({} : St Nat Nat)).used.map (·.gap)) = [6, 6, 7, 5] := by decide
 example : (solve two_pass solve_loop init_solve_ops 1 5 [5, 7, 6] ({} : St Nat Nat)).ucs = some ⟨6, 1, none⟩ := by decide
+/-- start values: a new pass is seeded with the usable cross-section at the gap of `init_solve`; a pass that was solved
+    before (out cross-section and usable cross-section of gap 9) starts its next solve from the previous result or from the
+    usable cross-section again, as the source says (`init_solve_seed_on_creation`); after the solve there is no difference -/
+example : (initSolve two_pass 5 1 init_solve_ops ({} : St Nat Nat)).ocs = some (.seeded ⟨5, 1, none⟩) := by decide
+example : (initSolve two_pass 4 1 init_solve_ops
+    ({ outp := true, ocs := some (.built ⟨9, 1, none⟩), ucs := some ⟨9, 1, none⟩, used := [⟨9, 1, none⟩] } : St Nat Nat)).ocs =
+    (if init_solve_seed_on_creation = true then some (.built ⟨9, 1, none⟩) else some (.seeded ⟨9, 1, none⟩)) := by decide
+example : (solve two_pass solve_loop init_solve_ops 1 4 [4, 4]
+    ({ outp := true, ocs := some (.built ⟨9, 1, none⟩), ucs := some ⟨9, 1, none⟩, used := [⟨9, 1, none⟩] } : St Nat Nat)).ocs =
+    (solve two_pass solve_loop init_solve_ops 1 4 [4, 4] ({} : St Nat Nat)).ocs := by decide
+example : HasUcs ({} : St Nat Nat) := Or.inl rfl
 /-- a used pass (memos and caches from gap 9 and groove 1) solved after its gap was set to 4 and groove 2 was mounted -/
 example : (solve three_pass solve_loop init_solve_ops 2 4 [4, 4]
     ({ lines := some ⟨9, 1, some 1⟩, gapC := some 9, ucs := some ⟨9, 1, some 1⟩, used := [⟨9, 1, some 1⟩], cpC := some 1, rline := some 1 } :
